@@ -410,8 +410,11 @@ impl AliasParser {
 
     fn get_input_term(&mut self) -> Result<Option<AliasItem>, AliasSyntaxError> {
         
-        let s_bound = self.get_syll_bound();
-        if s_bound.is_some() { return Ok(s_bound) }
+        // only romanisers can name a syllable boundary; a deromaniser cannot specify or insert one
+        if self.kind == AliasKind::Romaniser {
+            let s_bound = self.get_syll_bound();
+            if s_bound.is_some() { return Ok(s_bound) }
+        }
 
         self.get_segment()
     } 
